@@ -11,8 +11,10 @@
 //! either `Ok` with an empty event list or an error, and an order-insensitive digest of the peer's
 //! persisted state is unchanged: operations / heads / ignore set of the shared auth graph, sorted
 //! members of every group, and per space its group id, sorted members, auth operations, welcomed
-//! flag, sorted secret ids, latest secret id and orderer heads. (A canonicalised dump of the whole
-//! persisted state is compared too, but only reported as a label.)
+//! flag, sorted secret ids, latest secret id, orderer heads, the orderer's bookkeeping (queue of
+//! unprocessed messages, stored messages, operation graph) and the 2SM ratchet states. Finally a
+//! *canonicalised* dump of the persisted auth and space states (CBOR with every map and array
+//! sorted recursively, so hash-map iteration order cannot matter) must be unchanged.
 //!
 //! Part `messages`: on top of a small fixed world every `SpacesArgs` variant is forged with
 //! generated field values (known / unknown space and group ids, every auth action incl. Promote /
@@ -154,6 +156,30 @@ fn canon_hash<T: Serialize>(value: &T) -> String {
     }
 }
 
+/// Top-level fields of a struct's CBOR form: name -> digest of the canonical rendering (plus the
+/// number of entries for arrays and maps).
+fn cbor_fields<T: Serialize>(value: &T) -> Vec<(String, String)> {
+    let mut bytes = Vec::new();
+    if ciborium::ser::into_writer(value, &mut bytes).is_err() {
+        return vec![];
+    }
+    let Ok(ciborium::Value::Map(entries)) = ciborium::de::from_reader::<ciborium::Value, _>(&bytes[..]) else {
+        return vec![];
+    };
+    entries
+        .iter()
+        .filter_map(|(k, v)| {
+            let name = k.as_text()?.to_string();
+            let size = match v {
+                ciborium::Value::Array(a) => format!("{} entries ", a.len()),
+                ciborium::Value::Map(m) => format!("{} entries ", m.len()),
+                _ => String::new(),
+            };
+            Some((name, format!("{size}#{}", &Hash::digest(canon(v).as_bytes()).to_hex()[..10])))
+        })
+        .collect()
+}
+
 fn join_sorted(mut items: Vec<String>) -> String {
     items.sort();
     items.join(" ")
@@ -267,6 +293,12 @@ impl World {
                     format!("{key}.orderer_heads"),
                     join_sorted(y.orderer.heads().iter().map(h8).collect()),
                 );
+                // Bookkeeping of the space's encryption orderer (private fields, read through
+                // their serialised form): not-yet-processed queue, stored messages, operation graph.
+                for (field, value) in cbor_fields(&y.orderer) {
+                    asserted.insert(format!("{key}.orderer.{field}"), value);
+                }
+                asserted.insert(format!("{key}.two_party"), canon_hash(&y.two_party));
                 full.insert(key, canon_hash(&y));
             }
             Ok(Digest { asserted, full })
@@ -405,10 +437,12 @@ impl World {
             ));
         }
         if before.full != after.full {
+            // Everything compared above is derived from the same persisted state, so this can
+            // only be a field the facets do not single out.
             self.labels.insert("full_state_dump_changed_on_second_processing");
-            if std::env::var("VERIF_C39_STRICT_FULL").is_ok() {
+            if std::env::var("VERIF_C39_RELAX_FULL").is_err() {
                 return Err(format!(
-                    "second processing of message {i} ({what}) changed the canonical state dump of peer {p}"
+                    "second processing of message {i} ({what}) changed the canonicalised dump of the persisted state of peer {p}"
                 ));
             }
         }
@@ -1019,6 +1053,10 @@ pub enum Adv {
         len: u8,
         fill: u8,
     },
+    /// Two messages: a well-formed Promote / Demote of a space member signed by the space's
+    /// manager (peer 0) on top of the receiver's auth heads, followed by a space membership
+    /// message pointing at it.
+    PointerToPromotion { demote: bool, member: u16, access: u8 },
 }
 
 #[derive(Clone, Debug, Serialize, Deserialize)]
@@ -1079,6 +1117,9 @@ fn adv_strategy() -> impl Strategy<Value = Adv> {
         3 => (idsel(), depsel(), any::<bool>(), 0u8..40, any::<u8>()).prop_map(
             |(space, deps, known_secret, len, fill)| Adv::Application { space, deps, known_secret, len, fill }
         ),
+        2 => (any::<bool>(), any::<u16>(), any::<u8>()).prop_map(
+            |(demote, member, access)| Adv::PointerToPromotion { demote, member, access }
+        ),
     ]
 }
 
@@ -1102,7 +1143,8 @@ fn forge(key: &SigningKey, seq_num: u32, args: Args) -> TestOperation {
         payload_size: 0,
         payload_hash: None,
         seq_num,
-        backlink: None,
+        // A header with seq_num > 0 must carry a backlink to be decodable again.
+        backlink: (seq_num > 0).then(|| Hash::digest(seq_num.to_le_bytes())),
         extensions: args,
     };
     header.sign(key);
@@ -1248,6 +1290,76 @@ fn check_messages(case: &Messages) -> CaseResult {
                 }
             }
         };
+
+        if let Adv::PointerToPromotion { demote, member, access } = &f.adv {
+            // 1. The promotion itself, as the space's manager would publish it.
+            let manager_key = w.peers[0].tp.credentials.signing_key();
+            let space_id = w.spaces[0];
+            let space_group = w
+                .log
+                .iter()
+                .find_map(|rec| match &rec.op.header.extensions {
+                    SpacesArgs::SpaceMembership { space_id: s, group_id, .. } if *s == space_id => Some(*group_id),
+                    _ => None,
+                })
+                .ok_or_else(|| "base world has no space message".to_string())?;
+            let member = GroupMember::Individual(w.id_of(1 + idx(*member, n - 1)));
+            let access = access_of(*access);
+            let group_action = if *demote {
+                GroupAction::Demote { member, access }
+            } else {
+                GroupAction::Promote { member, access }
+            };
+            let promotion = forge(
+                &manager_key,
+                200_000 + k as u32,
+                SpacesArgs::Auth {
+                    group_id: space_group,
+                    group_action,
+                    auth_dependencies: auth_heads.clone(),
+                },
+            );
+            classes.insert("pointer_to_promotion");
+            for (what, op) in [
+                ("Auth/Promote-or-Demote by the manager", promotion.clone()),
+                (
+                    "SpaceMembership pointing at the promotion",
+                    forge(
+                        &key,
+                        300_000 + k as u32,
+                        SpacesArgs::SpaceMembership {
+                            space_id,
+                            group_id: space_group,
+                            space_dependencies: space_heads.get(&space_id).cloned().unwrap_or_default(),
+                            auth_message_id: promotion.hash,
+                            direct_messages: vec![],
+                        },
+                    ),
+                ),
+            ] {
+                w.persist(receiver, &op);
+                match w.process(receiver, &op) {
+                    Outcome::Panic(m) => {
+                        return Err(format!(
+                            "processing forged message #{k} ({what}) panicked at peer {receiver}: {m}"
+                        ));
+                    }
+                    Outcome::Err(e) => {
+                        if std::env::var("VERIF_C39_ERRS").is_ok() {
+                            eprintln!("[pointer] {what}: ERR {e}");
+                        }
+                        classes.insert("forged_rejected");
+                    }
+                    Outcome::Ok(_) => {
+                        if std::env::var("VERIF_C39_ERRS").is_ok() {
+                            eprintln!("[pointer] {what}: ok");
+                        }
+                        classes.insert("forged_accepted");
+                    }
+                }
+            }
+            continue;
+        }
 
         let (class, args): (&'static str, Args) = match &f.adv {
             Adv::KeyBundle { kind } => {
@@ -1398,6 +1510,7 @@ fn check_messages(case: &Messages) -> CaseResult {
                     },
                 )
             }
+            Adv::PointerToPromotion { .. } => unreachable!("handled above"),
             Adv::Application {
                 space,
                 deps,
@@ -1496,7 +1609,7 @@ pub fn run(mut ctx: Ctx) -> ! {
          members and sub-groups, publish, key bundle, repair, partial causal deliveries, re-deliveries, syncs), final \
          flush and a final sweep re-processing every successfully processed message at every peer. Non-trivial: a \
          re-delivery with at least one other message processed by that peer in between.",
-        300,
+        200,
         6000,
     )
     .min_nontrivial(0.5)
@@ -1508,7 +1621,7 @@ pub fn run(mut ctx: Ctx) -> ! {
         "fixed 3-peer world (group, space with sub-group, one application message) + 4..=8 forged messages per case \
          covering every SpacesArgs variant with generated field values, signed by a member or a stranger, processed \
          by a generated receiver inside catch_unwind; accepted ones are processed a second time.",
-        500,
+        400,
         15000,
     )
     .min_nontrivial(0.5)
